@@ -123,6 +123,15 @@ def mon_C15(spec, st, t):
     cp = pickle.loads(pickle.dumps(tp))
     if getattr(cp, 'derived', None) != tp.derived:
         return ('copy-post-init-lost', 'pickled copy of a post_init task lacks the attribute post_init derives')
+    # a task type whose post_init canonicalises its own parameter (strings lower-cased, tuples sorted)
+    tr = U.VRewrite(x=V.build(spec))
+    cr = pickle.loads(pickle.dumps(tr))
+    if cr.cache_key != tr.cache_key:
+        return ('copy-key-differs', f'pickled copy of a task whose post_init rewrites its parameter has another cache_key ({tr.cache_key} -> {cr.cache_key})')
+    if not nan and not (cr == tr and hash(cr) == hash(tr)):
+        return ('copy-unequal', 'pickled copy of a task whose post_init rewrites its parameter is not equal to the original')
+    if getattr(cr, 'derived', None) != tr.derived:
+        return ('copy-post-init-lost', 'pickled copy of a parameter-rewriting task lacks the attribute post_init derives')
     return None
 
 
